@@ -206,6 +206,7 @@ def _un2(name, fn):
 
 arccos = _un2("arccos", core.arccos)
 arctan = _un2("arctan", core.arctan)
+arcsin = _un2("arcsin", core.arcsin)
 abs_ = _un2("abs", lambda e: abs(e))
 absolute = abs_
 
@@ -509,7 +510,7 @@ def einsum(subs, *ops, **k):
 
 _EXPORT = dict(zeros=zeros, ones=ones, empty=empty, full=full, eye=eye, identity=identity, array=array,
                asarray=asarray, asanyarray=asanyarray, zeros_like=zeros_like, ones_like=ones_like,
-               common_type=common_type, sqrt=sqrt, sin=sin, cos=cos, tan=tan, arccos=arccos, arctan=arctan,
+               common_type=common_type, sqrt=sqrt, sin=sin, cos=cos, tan=tan, arccos=arccos, arctan=arctan, arcsin=arcsin,
                abs=abs_, absolute=absolute, sign=sign, maximum=maximum, minimum=minimum, clip=clip, where=where,
                isclose=isclose, allclose=allclose, isfinite=isfinite, isnan=isnan, max=max_, min=min_,
                amax=max_, amin=min_, argmax=argmax, cross=cross, arctan2=arctan2, einsum=einsum)
